@@ -320,6 +320,13 @@ static _Bool p_c19_list_step(const struct cat_object *s)
                s->write_state_after == CAT_STATE_PRINT_CMD && s->index == g_old.index && s->cmd_type == t + 1 && s->length == 1 && x_text_is(ABUFP, H_CAPA, exp, n);
 }
 
+#include "variant.h"
+#define EV_FAIR    ((E.wr_calls == OLD(E.wr_calls) || E.wr_ok) && (!(E.h_calls == OLD(E.h_calls) + 1) || v_terminal(E.h_ret)) && E.reent_trig == OLD(E.reent_trig))
+#define EV_BLOCKED (OLD(UST(self)) == CAT_UNSOLICITED_STATE_FLUSH_IO_WRITE_WAIT && ST(self) == CAT_STATE_FLUSH_IO_WRITE)
+#define PHI(s)     (v_phi_ev(s) + v_phi_at(s))
+#define ALL_FAIR   ((AT_READS == 0 || !E.rd_avail) && (AT_WRITES == 0 || E.wr_ok) && (AT_HCALLS == 0 || v_terminal(E.h_ret)) && E.reent_trig == 0 && \
+                    (G_EV.wr_calls == 0 || G_EV.wr_ok) && (G_EV.h_calls == 0 || v_terminal(G_EV.h_ret)))
+
 /* ---------------------------------------------------------------------------------------------
  * event machine step
  * ------------------------------------------------------------------------------------------- */
@@ -363,6 +370,8 @@ __CPROVER_assigns(EVENT_ASSIGNS)
 /* [C13:ev-idle-empty]   */ __CPROVER_ensures((EV_OLD_ST == CAT_UNSOLICITED_STATE_IDLE && OLD(RING_CNT(self)) == 0) ==> (p_ev_finished(self) && RET == CAT_STATUS_OK && RING_CNT(self) == 0))
 /* [C13:ev-in-progress]  */ __CPROVER_ensures((EV_OLD_ST == CAT_UNSOLICITED_STATE_IDLE && OLD(RING_CNT(self)) > 0 && !p_ev_finished(self)) ==> (UF(self).cmd == OLD(UF(self).unsolicited_cmd_buffer[UF(self).unsolicited_cmd_buffer_head].cmd) && UF(self).cmd_type == OLD(UF(self).unsolicited_cmd_buffer[UF(self).unsolicited_cmd_buffer_head].type)))
 /* [C13:ev-cmd-stable]   */ __CPROVER_ensures((EV_OLD_ST != CAT_UNSOLICITED_STATE_IDLE && !p_ev_finished(self)) ==> (UF(self).cmd == OLD(UF(self).cmd) && UF(self).cmd_type == OLD(UF(self).cmd_type)))
+/* ---- C15, liveness half: the event machine's variant never grows and shrinks unless it waits for the output ---- */
+/* [C15:ev-variant]      */ __CPROVER_ensures(EV_FAIR ==> (v_phi_ev(self) < v_phi_ev(&g_old) || (v_phi_ev(&g_old) == 0 && v_phi_ev(self) == 0) || (EV_BLOCKED && v_phi_ev(self) == v_phi_ev(&g_old))))
 /* [ENV:ev-ghost]        */ __CPROVER_ensures(EV_GHOST_CLAUSE)
 ;
 
@@ -397,6 +406,9 @@ __CPROVER_assigns(*self, E, EL, G_EV, G_HES, G_UBYTE, __CPROVER_object_whole(g_t
 /* ---- C15: OK only when quiescent ---- */
 /* [C15:ret]             */ __CPROVER_ensures(RET == CAT_STATUS_OK || RET == CAT_STATUS_BUSY || RET == CAT_STATUS_ERROR_MUTEX_LOCK || RET == CAT_STATUS_ERROR_MUTEX_UNLOCK)
 /* [C15:ok-quiescent]    */ __CPROVER_ensures(RET == CAT_STATUS_OK ==> (p_ring_empty(self) && UST(self) == CAT_UNSOLICITED_STATE_IDLE && p_reading_state(self->state) && self->state == g_old.state && AT_READS == 1 && !E.rd_avail && AT_WRITES == 0 && AT_HCALLS == 0))
+/* ---- C15, liveness half: every BUSY call under a fair environment decreases the variant; variant 0 is quiescence ---- */
+/* [C15:variant]         */ __CPROVER_ensures((RAN && UNLOCK_OK && ALL_FAIR && g_old.state != CAT_STATE_HOLD && self->state != CAT_STATE_HOLD) ==> (PHI(self) < PHI(&g_old) || PHI(&g_old) == 0))
+/* [C15:variant-zero]    */ __CPROVER_ensures((RAN && UNLOCK_OK && ALL_FAIR && g_old.state != CAT_STATE_HOLD && PHI(&g_old) == 0) ==> (RET == CAT_STATUS_OK && PHI(self) == 0))
 /* ---- C16: mutex discipline ---- */
 /* [C16:lock-balance]    */ __CPROVER_ensures(g_old.mutex == NULL ? (EL.lock_calls == 0 && EL.unlock_calls == 0) : (EL.lock_calls == 1 && EL.unlock_calls == (EL.lock_ret == 0 ? 1 : 0) && !EL.lock_err && !EL.held))
 /* [C16:callbacks-locked]*/ __CPROVER_ensures(!E.cb_unlocked)
